@@ -91,6 +91,7 @@ def stack_accumulation(chk, v, key, rule):
 
 def run(chk):
     repo = chk.repo
+    cm.schema(chk, repo, "C05")
     chk.rule("C05.D1", "div sums getattr(self, v).diff(vdim_mapping[v]) over the labels (component and axis paired through the "
                        "mapping); laplace sums order=2 derivatives over all dims per component; grad stacks diff(dim) in dims order")
     v = FV(repo, "field.Field.div")
